@@ -176,3 +176,184 @@ package node
 //@   invariant nd.remoteSyncedStates == old(nd.remoteSyncedStates) && nd.rn == old(nd.rn) && nd.sm == old(nd.sm) && nd.w == old(nd.w)
 //@   invariant M(nd) == old(M(nd)) && (forall k string :: (in(k, M(nd)) <==> old(in(k, M(nd)))) && sameSS(M(nd)[k], old(M(nd)[k])))
 //@   invariant ghost(effects, nd.sm) == old(ghost(effects, nd.sm))
+
+//@ property C11
+
+// ---- leader-side validators: what each one lets through to the raft proposal ----
+// (the pairing lemmas zzC11_<command> are generated by /verif from node_cmd_reg.go on every run and check every
+// apply handler under exactly the shape its validator guarantees)
+//@ spec shape_wrapWriteCommandK(cmd redcon.Command) bool = len(cmd.Args) == 2
+//@ spec shape_wrapWriteCommandKSubkey(cmd redcon.Command) bool = len(cmd.Args) == 3
+//@ spec shape_wrapWriteCommandKSubkeySubkey(cmd redcon.Command) bool = len(cmd.Args) >= 3
+//@ spec shape_wrapWriteCommandKAnySubkey(cmd redcon.Command, n int) bool = len(cmd.Args) >= 2 + n
+//@ spec shape_wrapWriteCommandKAnySubkeyAndMax(cmd redcon.Command, n int, m int) bool = len(cmd.Args) >= 2 + n && len(cmd.Args) <= 2 + m
+//@ spec shape_wrapWriteCommandKV(cmd redcon.Command) bool = len(cmd.Args) == 3
+//@ spec shape_wrapWriteCommandKVV(cmd redcon.Command) bool = len(cmd.Args) == 4
+//@ spec shape_wrapWriteCommandKSubkeyV(cmd redcon.Command) bool = len(cmd.Args) == 4
+//@ spec shape_wrapWriteCommandKSubkeyVSubkeyV(cmd redcon.Command) bool = len(cmd.Args) >= 4 && (len(cmd.Args) - 2) % 2 == 0 && (len(cmd.Args) - 2) / 2 <= common.MAX_BATCH_NUM
+
+// the proposal sink: ghost(proposals, kvn) counts commands handed to raft
+//@ func rebuildFirstKeyAndPropose(kvn *KVNode, cmd redcon.Command, f common.CommandRspFunc) (interface{}, error)
+//@   trusted serialises the command and proposes it to raft (I/O); the proposed bytes keep the argument vector
+//@   requires len(cmd.Args) >= 2
+//@   ensures ghost(proposals, kvn) == old(ghost(proposals, kvn)) + 1
+//@   modifies ghost(proposals, kvn)
+
+//@ extfunc github.com/youzan/ZanRedisDB/node.wrapWriteCommandK$1 func(cmd redcon.Command) (interface{}, error)
+//@   requires len(cmd.Args) >= 1
+//@   ensures ghost(proposals, kvn) != old(ghost(proposals, kvn)) ==> shape_wrapWriteCommandK(cmd)
+//@   modifies *
+//@ extfunc github.com/youzan/ZanRedisDB/node.wrapWriteCommandKSubkey$1 func(cmd redcon.Command) (interface{}, error)
+//@   requires len(cmd.Args) >= 1
+//@   ensures ghost(proposals, kvn) != old(ghost(proposals, kvn)) ==> shape_wrapWriteCommandKSubkey(cmd)
+//@   modifies ghost(proposals, _)
+//@ extfunc github.com/youzan/ZanRedisDB/node.wrapWriteCommandKSubkeySubkey$1 func(cmd redcon.Command) (interface{}, error)
+//@   requires len(cmd.Args) >= 1
+//@   ensures ghost(proposals, kvn) != old(ghost(proposals, kvn)) ==> shape_wrapWriteCommandKSubkeySubkey(cmd)
+//@   modifies ghost(proposals, _)
+//@ extfunc github.com/youzan/ZanRedisDB/node.wrapWriteCommandKAnySubkey$1 func(cmd redcon.Command) (interface{}, error)
+//@   requires len(cmd.Args) >= 1 && minSubKeyLen >= 0 && minSubKeyLen < 1000
+//@   ensures ghost(proposals, kvn) != old(ghost(proposals, kvn)) ==> shape_wrapWriteCommandKAnySubkey(cmd, minSubKeyLen)
+//@   modifies ghost(proposals, _)
+//@ extfunc github.com/youzan/ZanRedisDB/node.wrapWriteCommandKAnySubkeyAndMax$1 func(cmd redcon.Command) (interface{}, error)
+//@   requires len(cmd.Args) >= 1 && minSubKeyLen >= 0 && minSubKeyLen < 1000 && maxSubKeyLen >= 0 && maxSubKeyLen < 1000000
+//@   ensures ghost(proposals, kvn) != old(ghost(proposals, kvn)) ==> shape_wrapWriteCommandKAnySubkeyAndMax(cmd, minSubKeyLen, maxSubKeyLen)
+//@   modifies ghost(proposals, _)
+//@ extfunc github.com/youzan/ZanRedisDB/node.wrapWriteCommandKV$1 func(cmd redcon.Command) (interface{}, error)
+//@   requires len(cmd.Args) >= 1
+//@   ensures ghost(proposals, kvn) != old(ghost(proposals, kvn)) ==> shape_wrapWriteCommandKV(cmd)
+//@   modifies ghost(proposals, _)
+//@ extfunc github.com/youzan/ZanRedisDB/node.wrapWriteCommandKVV$1 func(cmd redcon.Command) (interface{}, error)
+//@   requires len(cmd.Args) >= 1
+//@   ensures ghost(proposals, kvn) != old(ghost(proposals, kvn)) ==> shape_wrapWriteCommandKVV(cmd)
+//@   modifies ghost(proposals, _)
+//@ extfunc github.com/youzan/ZanRedisDB/node.wrapWriteCommandKSubkeyVSubkeyV$1 func(cmd redcon.Command) (interface{}, error)
+//@   requires len(cmd.Args) >= 1
+//@   ensures ghost(proposals, kvn) != old(ghost(proposals, kvn)) ==> shape_wrapWriteCommandKSubkeyVSubkeyV(cmd)
+//@   modifies ghost(proposals, _)
+
+// the state machine as the apply loop sees it
+//@ spec applyEnv(kvsm *kvStoreSM) bool = kvsm != nil && kvsm.store != nil && dbReady(kvsm.store.RockDB)
+
+// leader-side pre-reads of the local store (results arbitrary) and pure argument parsers
+//@ noeffect (*github.com/youzan/ZanRedisDB/rockredis.RockDB).SIsMember (*github.com/youzan/ZanRedisDB/rockredis.RockDB).ZScore (*github.com/youzan/ZanRedisDB/rockredis.RockDB).KVGet (*github.com/youzan/ZanRedisDB/rockredis.RockDB).KVExists (*github.com/youzan/ZanRedisDB/rockredis.RockDB).SCard github.com/youzan/ZanRedisDB/rockredis.IsMemberNotExist
+
+// argument parsers shared by the leader-side validators and the apply handlers: total (no panic on any bytes)
+//@ func getExSecs(ex []byte, secs []byte) (int64, error)
+//@   ensures result1 == nil ==> result0 > 0
+//@ func getExNxXXArgs(opts [][]byte) (int64, bool, bool, error)
+//@   ensures result3 == nil ==> result0 >= 0
+//@   loop 1
+//@   invariant 0 <= i && i <= len(opts) && duration >= 0
+//@ func getScorePairs(args [][]byte) ([]common.ScorePair, error)
+//@   requires len(args) % 2 == 0
+//@   ensures result1 == nil ==> len(result0) == len(args) / 2
+//@   ensures result1 != nil ==> result0 == nil
+//@   loop 1
+//@   invariant 0 <= i && i % 2 == 0 && i <= len(args) && len(mlist) == i / 2 && fresh(mlist)
+//@ func getLexRange(left []byte, right []byte) ([]byte, []byte, uint8, error)
+//@ func getScoreRange(left []byte, right []byte) (float64, float64, error)
+
+// ---- hand-written leader-side handlers: shape_<handler>(cmd) is what they let through ----
+//@ spec shape_delIfEQCommand(cmd redcon.Command) bool = len(cmd.Args) == 3
+//@ spec shape_lsetCommand(cmd redcon.Command) bool = len(cmd.Args) == 4
+//@ spec shape_ltrimCommand(cmd redcon.Command) bool = len(cmd.Args) == 4
+//@ spec shape_saddCommand(cmd redcon.Command) bool = len(cmd.Args) >= 3
+//@ spec shape_sremCommand(cmd redcon.Command) bool = len(cmd.Args) >= 3
+//@ spec shape_spopCommand(cmd redcon.Command) bool = len(cmd.Args) == 2 || len(cmd.Args) == 3
+//@ spec shape_setCommand(cmd redcon.Command) bool = len(cmd.Args) >= 3
+//@ spec shape_setnxCommand(cmd redcon.Command) bool = len(cmd.Args) == 3
+//@ spec shape_setIfEQCommand(cmd redcon.Command) bool = len(cmd.Args) == 4 || len(cmd.Args) == 6
+//@ spec shape_setbitCommand(cmd redcon.Command) bool = len(cmd.Args) == 4
+//@ spec shape_zaddCommand(cmd redcon.Command) bool = len(cmd.Args) >= 4 && len(cmd.Args) % 2 == 0
+//@ spec shape_zremCommand(cmd redcon.Command) bool = len(cmd.Args) >= 3
+//@ spec shape_zincrbyCommand(cmd redcon.Command) bool = len(cmd.Args) == 4
+//@ spec shape_zremrangebyrankCommand(cmd redcon.Command) bool = len(cmd.Args) == 4
+//@ spec shape_zremrangebyscoreCommand(cmd redcon.Command) bool = len(cmd.Args) == 4
+//@ spec shape_zremrangebylexCommand(cmd redcon.Command) bool = len(cmd.Args) == 4
+
+//@ func (nd *KVNode) delIfEQCommand(cmd redcon.Command) (interface{}, error)
+//@   requires nd != nil && nd.store != nil && nd.store.RockDB != nil && len(cmd.Args) >= 1
+//@   ensures ghost(proposals, nd) != old(ghost(proposals, nd)) ==> shape_delIfEQCommand(cmd)
+//@   modifies *
+//@ func (nd *KVNode) lsetCommand(cmd redcon.Command) (interface{}, error)
+//@   requires nd != nil && nd.store != nil && nd.store.RockDB != nil && len(cmd.Args) >= 1
+//@   ensures ghost(proposals, nd) != old(ghost(proposals, nd)) ==> shape_lsetCommand(cmd)
+//@   modifies *
+//@ func (nd *KVNode) ltrimCommand(cmd redcon.Command) (interface{}, error)
+//@   requires nd != nil && nd.store != nil && nd.store.RockDB != nil && len(cmd.Args) >= 1
+//@   ensures ghost(proposals, nd) != old(ghost(proposals, nd)) ==> shape_ltrimCommand(cmd)
+//@   modifies *
+//@ func (nd *KVNode) saddCommand(cmd redcon.Command) (interface{}, error)
+//@   requires nd != nil && nd.store != nil && nd.store.RockDB != nil && len(cmd.Args) >= 1
+//@   ensures ghost(proposals, nd) != old(ghost(proposals, nd)) ==> shape_saddCommand(cmd)
+//@   modifies *
+//@   loop 1
+//@   invariant ghost(proposals, nd) == old(ghost(proposals, nd)) && len(cmd.Args) >= 3
+//@ func (nd *KVNode) sremCommand(cmd redcon.Command) (interface{}, error)
+//@   requires nd != nil && nd.store != nil && nd.store.RockDB != nil && len(cmd.Args) >= 1
+//@   ensures ghost(proposals, nd) != old(ghost(proposals, nd)) ==> shape_sremCommand(cmd)
+//@   modifies *
+//@   loop 1
+//@   invariant ghost(proposals, nd) == old(ghost(proposals, nd)) && len(cmd.Args) >= 3
+//@ func (nd *KVNode) spopCommand(cmd redcon.Command) (interface{}, error)
+//@   requires nd != nil && nd.store != nil && nd.store.RockDB != nil && len(cmd.Args) >= 1
+//@   ensures ghost(proposals, nd) != old(ghost(proposals, nd)) ==> shape_spopCommand(cmd)
+//@   modifies *
+//@ func (nd *KVNode) setCommand(cmd redcon.Command) (interface{}, error)
+//@   requires nd != nil && nd.store != nil && nd.store.RockDB != nil && len(cmd.Args) >= 1
+//@   ensures ghost(proposals, nd) != old(ghost(proposals, nd)) ==> shape_setCommand(cmd)
+//@   modifies *
+//@ func (nd *KVNode) setnxCommand(cmd redcon.Command) (interface{}, error)
+//@   requires nd != nil && nd.store != nil && nd.store.RockDB != nil && len(cmd.Args) >= 1
+//@   ensures ghost(proposals, nd) != old(ghost(proposals, nd)) ==> shape_setnxCommand(cmd)
+//@   modifies *
+//@ func (nd *KVNode) setIfEQCommand(cmd redcon.Command) (interface{}, error)
+//@   requires nd != nil && nd.store != nil && nd.store.RockDB != nil && len(cmd.Args) >= 1
+//@   ensures ghost(proposals, nd) != old(ghost(proposals, nd)) ==> shape_setIfEQCommand(cmd)
+//@   modifies *
+//@ func (nd *KVNode) setbitCommand(cmd redcon.Command) (interface{}, error)
+//@   requires nd != nil && nd.store != nil && nd.store.RockDB != nil && len(cmd.Args) >= 1
+//@   ensures ghost(proposals, nd) != old(ghost(proposals, nd)) ==> shape_setbitCommand(cmd)
+//@   modifies *
+//@ func (nd *KVNode) zaddCommand(cmd redcon.Command) (interface{}, error)
+//@   requires nd != nil && nd.store != nil && nd.store.RockDB != nil && len(cmd.Args) >= 1
+//@   ensures ghost(proposals, nd) != old(ghost(proposals, nd)) ==> shape_zaddCommand(cmd)
+//@   modifies *
+//@   loop 1
+//@   invariant ghost(proposals, nd) == old(ghost(proposals, nd)) && len(cmd.Args) >= 4 && len(cmd.Args) % 2 == 0 && 0 <= i
+//@ func (nd *KVNode) zremCommand(cmd redcon.Command) (interface{}, error)
+//@   requires nd != nil && nd.store != nil && nd.store.RockDB != nil && len(cmd.Args) >= 1
+//@   ensures ghost(proposals, nd) != old(ghost(proposals, nd)) ==> shape_zremCommand(cmd)
+//@   modifies *
+//@   loop 1
+//@   invariant ghost(proposals, nd) == old(ghost(proposals, nd)) && len(cmd.Args) >= 3
+//@ func (nd *KVNode) zincrbyCommand(cmd redcon.Command) (interface{}, error)
+//@   requires nd != nil && nd.store != nil && nd.store.RockDB != nil && len(cmd.Args) >= 1
+//@   ensures ghost(proposals, nd) != old(ghost(proposals, nd)) ==> shape_zincrbyCommand(cmd)
+//@   modifies *
+//@ func (nd *KVNode) zremrangebyrankCommand(cmd redcon.Command) (interface{}, error)
+//@   requires nd != nil && nd.store != nil && nd.store.RockDB != nil && len(cmd.Args) >= 1
+//@   ensures ghost(proposals, nd) != old(ghost(proposals, nd)) ==> shape_zremrangebyrankCommand(cmd)
+//@   modifies *
+//@ func (nd *KVNode) zremrangebyscoreCommand(cmd redcon.Command) (interface{}, error)
+//@   requires nd != nil && nd.store != nil && nd.store.RockDB != nil && len(cmd.Args) >= 1
+//@   ensures ghost(proposals, nd) != old(ghost(proposals, nd)) ==> shape_zremrangebyscoreCommand(cmd)
+//@   modifies *
+//@ func (nd *KVNode) zremrangebylexCommand(cmd redcon.Command) (interface{}, error)
+//@   requires nd != nil && nd.store != nil && nd.store.RockDB != nil && len(cmd.Args) >= 1
+//@   ensures ghost(proposals, nd) != old(ghost(proposals, nd)) ==> shape_zremrangebylexCommand(cmd)
+//@   modifies *
+
+// apply-side handlers with loops
+//@ func (kvsm *kvStoreSM) localHMsetCommand(cmd redcon.Command, ts int64) (interface{}, error)
+//@   inline
+//@   loop 1
+//@   invariant 0 <= i && i % 2 == 0 && len(args) % 2 == 0
+
+// the apply loop deliberately panics on an unrecoverable engine error. Only an error whose text STARTS with the
+// engine's disk-full marker qualifies: apply handlers return strconv errors that quote client bytes, and a
+// quoted argument can contain any text but never be the start of the message
+//@ func isUnrecoveryError(err error) bool
+//@   requires err != nil
+//@   ensures result ==> strHasPrefix(errText(err), "IO error: No space left on device")
